@@ -155,6 +155,10 @@ func getGlobalProducer(pass *analysishelper.EnhancedPass, valspec *ast.ValueSpec
 		// if rhs is another global
 		return getProducerForVar(pass, rhs)
 	case *ast.SelectorExpr:
+		// A global variable of another package (e.g., `pkg.Var`)
+		if v, ok := pass.TypesInfo.ObjectOf(rhs.Sel).(*types.Var); ok && v.Pkg() != nil && annotation.VarIsGlobal(v) {
+			return getProducerForVar(pass, rhs.Sel)
+		}
 		// Struct field access
 		return getProducerForField(pass, rhs.Sel)
 	}
